@@ -54,7 +54,7 @@ def validate(ctx, name, target=None, rid='R13.1', only_groups=False, gid='R14.1'
     repo = gen.REPO
     import os
     spath = t['schema'] if os.path.isabs(t['schema']) else repo + '/' + t['schema']
-    sc = schema.Schema(spath, fixt=(repo + '/' + t['fixt']) if t['fixt'] else None, extra_fields=t.get('extra'))
+    sc = schema.Schema(spath, fixt=((t['fixt'] if os.path.isabs(t['fixt']) else repo + '/' + t['fixt']) if t['fixt'] else None), extra_fields=t.get('extra'))
     ft = ftcodes_from_repo()
     stats = {'definitions': 0, 'shared': 0, 'fields': 0, 'realms': 0, 'messages': 0}
     ns = m.ns
